@@ -17,7 +17,7 @@ COMMON  := -g -fno-omit-frame-pointer -fopenmp -DCOLVARS_VERIF -I$(SRC) -w
 LIBSTD  := -std=c++11
 SIMSTD  := -std=c++17 -I. -Isim
 
-FLAGS_asan  := -O1 -fsanitize=address,undefined -fno-sanitize-recover=undefined -fno-sanitize=alignment,vptr
+FLAGS_asan  := -O1 -fsanitize=address,undefined -fno-sanitize-recover=undefined -fno-sanitize=alignment,vptr,nonnull-attribute,returns-nonnull-attribute
 FLAGS_plain := -O2
 FLAGS_tsan  := -O1 -fsanitize=thread
 
